@@ -389,6 +389,10 @@ def write_replay(driver, cfg, tier, v, choices, minimised):
     return path
 
 
+MAX_REPORTED = 8
+MAX_MINIMISED = 3
+
+
 def report(driver_by_name, cfg_by_name, tier, totals_list, do_minimise=True):
     """Print KNOWN-FINDING / VIOLATION / HARNESS-ERROR lines.  Returns exit code."""
     findings = load_known_findings()
@@ -397,6 +401,7 @@ def report(driver_by_name, cfg_by_name, tier, totals_list, do_minimise=True):
     seen_classes = set()
     known_printed = set()
     n_viol = 0
+    n_more = 0
     for name, totals in totals_list:
         driver, cfg = driver_by_name[name], cfg_by_name[name]
         harness.extend(totals.harness_errors)
@@ -411,6 +416,10 @@ def report(driver_by_name, cfg_by_name, tier, totals_list, do_minimise=True):
                     known_printed.add(f['id'])
                     print('KNOWN-FINDING: property={0} {1} [{2}]'.format(v.prop, f['what'], f['id']))
                 continue
+            if n_viol >= MAX_REPORTED:
+                n_more += 1
+                exit_code = 1
+                continue
             # confirm (fresh world, same process) and minimise
             choices = v.choices
             rep = reproduce(driver, cfg, choices, k)
@@ -421,7 +430,7 @@ def report(driver_by_name, cfg_by_name, tier, totals_list, do_minimise=True):
                     k, v.extra.get('run_seed')))
                 continue
             minimised = False
-            if do_minimise:
+            if do_minimise and n_viol < MAX_MINIMISED:
                 small = minimise(driver, cfg, v)
                 if small is not None and reproduce(driver, cfg, small, k) is not None:
                     choices, minimised = small, True
@@ -434,7 +443,9 @@ def report(driver_by_name, cfg_by_name, tier, totals_list, do_minimise=True):
             if rep.detail:
                 print('  detail: {0}'.format(str(rep.detail)[:600]))
             exit_code = 1
-    for h in harness:
+    if n_more:
+        print('  (+{0} further distinct violation classes not written out)'.format(n_more))
+    for h in harness[:10]:
         print('HARNESS-ERROR {0}'.format(h))
     if harness and exit_code == 0:
         exit_code = 2
